@@ -322,7 +322,9 @@ def _collect_base_attrs(
 
     # Traverse the MRO and collect attributes.
     for base_cls in reversed(cls.__mro__[1:-1]):
-        for a in getattr(base_cls, "__attrs_attrs__", []):
+        # Only the fields a class owns: a plain class resolves
+        # __attrs_attrs__ from its attrs base, which is visited itself.
+        for a in base_cls.__dict__.get("__attrs_attrs__", ()):
             if a.inherited or a.name in taken_attr_names:
                 continue
 
